@@ -14,6 +14,7 @@ var verifErrRead = errors.New("verif: transport read failed")
 // records (failing at the configured call) or blocks until the transport is closed
 type verifBlockRWC struct {
 	frame.VerifRecWriter
+	data        []byte // delivered by the first Read, before the transport goes quiet
 	wake        bool
 	closedFlag  bool
 	writeBlocks bool
@@ -22,6 +23,11 @@ type verifBlockRWC struct {
 }
 
 func (t *verifBlockRWC) Read(p []byte) (int, error) {
+	if len(t.data) > 0 {
+		n := copy(p, t.data)
+		t.data = t.data[n:]
+		return n, nil
+	}
 	verifBlockUntil(&t.wake)
 	if t.closedFlag {
 		return 0, io.ErrClosedPipe
@@ -257,4 +263,52 @@ func verifHarness_C10_consumer(keyed int, chunk int) {
 	verifAssert(len(n.chEvent) == 0, "C10/C/nothing-after-close")
 	verifAssert(rwc.closed >= 1, "C10/C/transport-closed")
 	verifReach("C10/C")
+}
+
+// C10/C13 (one schedule): several frames arrive in one piece while the application is slow (it has taken only the
+// open event); a write on the channel fails. Whatever the channel does about the failure, the close event is the
+// last event of the channel: every frame already received comes before it, nothing after it.
+func verifHarness_C10_write_failure_order() {
+	n := verifBareNode(V2, 1, 1)
+	t := &verifBlockRWC{}
+	t.SetFailAt(1)
+	ts := uint64(0)
+	t.data = append(t.data, verifValidFrame(30, nil, ts)...)
+	t.data = append(t.data, verifValidFrame(31, nil, ts)...)
+	t.data = append(t.data, verifValidFrame(32, nil, ts)...)
+	ch := verifStartedChannel(n, t)
+	// chEvent must be a real unbuffered channel here: the application is slow
+	n.chEvent = make(chan Event)
+	verifRunGoroutines(func() { ch.run() })
+	evt := <-n.chEvent
+	_, isOpen := evt.(*EventChannelOpen)
+	verifAssert(isOpen, "C10/W/open-first")
+	verifRunGoroutines(nil) // the reader is now stuck handing over frame 30
+	ch.write(&message.MessageRaw{ID: 202, Payload: []byte{1, 2, 3, 4, 5}})
+	verifRunGoroutines(nil) // the write fails
+	seen := 0
+	closed := false
+	for i := 0; i < 6; i++ {
+		if closed {
+			break
+		}
+		if verifBlockedGoroutines() == 0 && len(n.chEvent) == 0 {
+			break
+		}
+		e := <-n.chEvent
+		switch ev := e.(type) {
+		case *EventFrame:
+			verifAssert(ev.Frame.GetSequenceNumber() == byte(30+seen), "C10/W/frames-in-arrival-order")
+			seen++
+		case *EventChannelClose:
+			closed = true
+		}
+		verifRunGoroutines(nil)
+	}
+	if closed {
+		verifAssert(seen == 3, "C10/W/close-event-comes-after-every-received-frame")
+		verifRunGoroutines(nil)
+		verifAssert(len(n.chEvent) == 0 && verifBlockedGoroutines() == 0, "C10/W/nothing-after-close")
+	}
+	verifReach("C10/W")
 }
